@@ -244,6 +244,9 @@ func (c *hctx) retStmt(v *ast.ReturnStmt) term {
 	if c.lit != nil {
 		res = c.lit.res
 	}
+	if c.fn.ctor && c.lit == nil {
+		return c.retTerm(nil) // the new struct itself: its fields
+	}
 	if len(v.Results) == 0 {
 		if c.lit != nil {
 			if len(res) > 0 {
